@@ -19,7 +19,7 @@ import ast
 import re
 
 from ..cfg import ENTRY, EXIT, header_parts
-from ..flow import Defs, all_defs_text, conjuncts, guard_facts, iterations, rejections, stores_into
+from ..flow import reach_rejections, Defs, all_defs_text, conjuncts, guard_facts, iterations, rejections, stores_into
 from ..loader import AnalysisError, FuncInfo, dotted, norm, walk_no_nested
 from ..report import Ctx
 from ..selftest import Mutant
@@ -249,6 +249,11 @@ def rule_once(ctx: Ctx) -> None:
     if len(exe) != 1:
         raise AnalysisError(f"Pipeline._run: expected exactly one _execute_func call, found {len(exe)}")
     memo_p = "all_results"
+    if memo_p not in run_.param_names():
+        # the per-call state travels in another representation (e.g. grouped into one record object): the rules below read the
+        # memo as the parameter `all_results` and cannot follow it there
+        ctx.add("2-once", run_, run_.node, None, "UNDECIDED: Pipeline._run has no parameter `all_results`; the representation of the per-call memo is not recognised", key="memo-test")
+        return
     tests = [n for n in cfg.nodes(lambda s: isinstance(s, ast.If)) if memo_p in norm(cfg.stmt[n].test) and cfg.dominates(n, exe[0])
              and any(isinstance(r, ast.Return) for r in cfg.stmt[n].body) and not any(isinstance(x, ast.Name) and x.id != memo_p and x.id not in run_.param_names() for x in ast.walk(cfg.stmt[n].test))]
     member = [n for n in tests if isinstance(cfg.stmt[n].test, ast.Compare) and len(cfg.stmt[n].test.ops) == 1 and isinstance(cfg.stmt[n].test.ops[0], ast.In) and norm(cfg.stmt[n].test.comparators[0]) == memo_p]
@@ -346,14 +351,20 @@ def rule_surplus(ctx: Ctx) -> None:
     P = ctx.prog
     rn = P.func(f"{BASE}.Pipeline.run")
     cfg = ctx.cfg(rn)
+    if "used_parameters" not in P.func(f"{BASE}.Pipeline._run").param_names():
+        # the set of consumed keywords travels in another representation (renamed / grouped into a per-call record)
+        ctx.add("4-surplus", rn, rn.node, None, "UNDECIDED: Pipeline._run has no parameter `used_parameters`; how the consumed keywords are recorded and compared is not recognised", key="unused-test")
+        return
     rj = [r for r in rejections(cfg, rn.node) if not r["dead"] and "Unused" in norm(r["node"])]
+    if not rj:  # the rejection may sit in a helper / a method of a per-call record that run() calls
+        rj = [r for r in reach_rejections(ctx, rn, depth=2) if not r["dead"] and "Unused" in norm(r["node"])]
     ctx.tri("4-surplus", rn, rj[0]["node"] if rj else rn.node, bool(rj), not rj, "surplus keywords raise UnusedParametersError", "run() never raises UnusedParametersError: surplus (mistyped) keywords are silently ignored", key="unused-test")
     if rj:
         conds = " && ".join(rj[0]["conds"])
         # through the locals the condition is computed from (`unused = [... if name not in used_parameters]; if unused: raise`)
         from ..flow import dependence_text
 
-        conds = conds + " ;; " + " ;; ".join(dependence_text(rn.node, t_) for t_, _truth in rj[0]["tests"])
+        conds = conds + " ;; " + " ;; ".join(dependence_text(rj[0].get("fn", rn).node if rj[0].get("fn") is not None else rn.node, t_) for t_, _truth in rj[0]["tests"])
         weak = "used_parameters" not in conds
         ctx.tri("4-surplus", rn, rj[0]["node"], "used_parameters" in conds and ("-" in conds or "difference" in conds or "not in" in conds or "<=" in conds or "issubset" in conds), weak,
                 "the rejection compares the supplied keywords with the parameters that were used", f"the rejection `{conds[:80]}` does not look at the used parameters", f"condition `{conds[:60]}`", key="unused-cond")
